@@ -175,7 +175,7 @@ def silence_points():
 
 def run_silence(ctx, only=None):
     for name, (role, steps, engaged, user_ended) in sorted(silence_points().items()):
-        for chatter in (None, 'ignored-pdus'):
+        for chatter in (None, 'ignored-pdus', 'stray-bytes'):
             if only is not None and only != (name, chatter):
                 continue
             case = {'kind': 'silence', 'point': name, 'chatter': chatter}
@@ -186,11 +186,19 @@ def run_silence(ctx, only=None):
                 else:
                     actions.append({'k': 'user', 'prim': convs.user_prim(s[1])})
             n0 = len(actions)
-            if chatter and name not in ('before-first-pdu', 'partial-first-pdu'):
+            if chatter == 'stray-bytes' and name != 'partial-first-pdu':
+                # the peer sends an incomplete PDU (a header fragment) and then stays silent: a half-received PDU
+                # must not keep the provider from expiring
+                actions += [{'k': 'tick', 'dt': 3.0}, {'k': 'seg', 'data': refpdu.enc_pdu(convs.REL_RQ)[:3], 'eager': False},
+                            {'k': 'tick', 'dt': 3.0}, {'k': 'seg', 'data': refpdu.enc_pdu(convs.REL_RQ)[3:7], 'eager': False},
+                            {'k': 'tick', 'dt': 3.5}]
+            elif chatter and name not in ('before-first-pdu', 'partial-first-pdu'):
                 # the peer keeps talking instead of closing: must not postpone the ARTIM deadline
                 actions += [{'k': 'tick', 'dt': 4.0}, {'k': 'seg', 'data': refpdu.enc_pdu(convs.echo_rq(1)), 'eager': False},
                             {'k': 'tick', 'dt': 4.0}, {'k': 'seg', 'data': refpdu.enc_pdu(convs.REL_RP), 'eager': False},
                             {'k': 'tick', 'dt': 1.5}]
+            elif chatter == 'stray-bytes':
+                continue
             elif chatter:
                 continue
             else:
@@ -207,6 +215,47 @@ def run_silence(ctx, only=None):
                                     % (name, ARTIM - 0.5, before[0]['state'] if before else '?',
                                        before[0]['artim'] if before else '?'), case)
                 # after ARTIM + 0.5 s the provider must be idle (final snapshot, checked by end_oracle)
+            except Violation as v:
+                ctx.fail(v.key, v.what, v.case)
+
+
+def run_other_association(ctx):
+    """While one provider waits on ARTIM (silent peer), ANOTHER association is served to completion in the same
+    process.  The waiting provider must still expire on time: per-association state (timer, slot, decoder) must
+    not be shared between providers."""
+    other_role, other_steps = convs.corpus()['acc-store-release']
+    other2_role, other2_steps = convs.corpus()['req-echo-release']
+    for name in ('before-first-pdu', 'after-local-reject', 'after-local-abort-sta6', 'after-local-release-rsp',
+                 'after-provider-abort-sta6'):
+        role, steps, engaged, user_ended = silence_points()[name]
+        for which, (orole, osteps) in (('acceptor', (other_role, other_steps)), ('requestor', (other2_role, other2_steps))):
+            case = {'kind': 'other-association', 'point': name, 'other': which}
+            actions = []
+            for s in steps:
+                if s[0] == 'burst':
+                    actions += [{'k': 'seg', 'data': r, 'eager': False} for r in s[1]]
+                else:
+                    actions.append({'k': 'user', 'prim': convs.user_prim(s[1])})
+            inner = {}
+
+            def serve_other(sim, orole=orole, osteps=osteps, inner=inner):
+                inner['sim'] = simnet.run_scenario(orole, full_script(osteps))
+            actions += [{'k': 'tick', 'dt': 3.0}, {'k': 'call', 'fn': serve_other}, {'k': 'tick', 'dt': ARTIM - 3.5}]
+            n1 = len(actions)
+            actions += [{'k': 'tick', 'dt': 1.0}]
+            sim = simnet.run_scenario(role, actions)
+            ctx.case(('other', name, which), True, labels=['other-association-meanwhile', 'point=' + name], sample=case)
+            try:
+                osim = inner.get('sim')
+                if osim is None or osim.outcome[0] != 'returned' or osim.final()['state'] != 1:
+                    raise Violation('C13:other-association:disturbed', '%s: the association served meanwhile ended %r'
+                                    % (name, osim and (osim.outcome, osim.final())), case)
+                end_oracle(name, sim, case, engaged, user_ended, 'peer silent, another association served meanwhile')
+                before = [s_ for s_ in sim.snaps if s_['next'] == n1]
+                if not before or before[0]['state'] == 1 or not before[0]['artim']:
+                    raise Violation('C13:other-association:artim', '%s: after serving another association: state Sta%s, ARTIM '
+                                    'running=%s, half a second before the deadline'
+                                    % (name, before[0]['state'] if before else '?', before[0]['artim'] if before else '?'), case)
             except Violation as v:
                 ctx.fail(v.key, v.what, v.case)
 
@@ -310,8 +359,8 @@ def run(ctx):
     ctx.exhaustive = True
     ctx.rule = ('for each of %d conversations (both roles): peer disconnect after EVERY byte prefix of the peer\'s '
                 'stream, with and without the next local step racing the disconnect; peer silence at each of 13 '
-                'points where ARTIM is armed (with a silent and with a chattering peer), checked just before and '
-                'just after the deadline; a stop request (kill) and stop() at every quiescent point of every '
+                'points where ARTIM is armed (with a silent peer, a chattering peer and a peer that stalls in the middle of a PDU), checked just before and '
+                'just after the deadline; another association served to completion in the same process while a provider waits on ARTIM; a stop request (kill) and stop() at every quiescent point of every '
                 'conversation; Association.kill() for both stop() outcomes; non-trivial = cut strictly inside the '
                 'conversation, or a silence/kill/stop variant; distinct by (kind, conversation, position)' % len(c))
     ctx.assumptions = ['"bounded time" is simulated time; an unresponsive peer is modelled as silence',
@@ -319,6 +368,7 @@ def run(ctx):
                        'exhaustive over the scenario corpus, not over all conversations']
     parallel(ctx, run_conv, [{'conv': n, 'thorough': ctx.thorough} for n in sorted(c)])
     run_silence(ctx)
+    run_other_association(ctx)
     run_assoc_kill(ctx)
 
 
@@ -335,6 +385,8 @@ def replay(case):
             run_kill_stop(sub, case['conv'], role, steps, case['at'])
     elif k == 'silence':
         run_silence(sub, (case['point'], case['chatter']))
+    elif k == 'other-association':
+        run_other_association(sub)
     else:
         run_assoc_kill(sub)
     for key, ent in sorted(sub.failures.items()):
